@@ -22,7 +22,6 @@ Proof. unfold is_range_comment, rg_lead. destruct (parse_ignore_comment c) as [[
 Lemma free_rg_end a c : is_range_comment c = false -> rg_end a c = a.
 Proof. unfold is_range_comment, rg_end. destruct (parse_ignore_comment c) as [[[] L]|]; auto; discriminate. Qed.
 
-Definition free_list (l : list (list byte)) : bool := forallb (fun c => negb (is_range_comment c)) l.
 
 Lemma fold_free (h : irules -> list byte -> irules) :
   (forall a c, is_range_comment c = false -> h a c = a) ->
